@@ -1,8 +1,13 @@
-Require Import Coq.ZArith.ZArith Coq.Lists.List Coq.Bool.Bool Coq.Strings.String Lia.
-Require Import Cnl2aspV.Gen.Operators Cnl2aspV.Gen.Terminals Cnl2aspV.Cnl.Preference.
+(* C04: the cost the emitted weak constraints give an interpretation is the stated quantity (with its direction), levels are
+   compared in the order of the priorities, hence optimality by the weak constraints is optimality by the READING. *)
+Require Import Coq.ZArith.ZArith Coq.Lists.List Coq.Bool.Bool Coq.Strings.String Coq.Arith.Arith Coq.Sorting.Permutation Lia.
+Require Import Cnl2aspV.Base.Util Cnl2aspV.Gen.Operators Cnl2aspV.Gen.Tables Cnl2aspV.Gen.Terminals
+               Cnl2aspV.Asp.CmpSem Cnl2aspV.Asp.Agg Cnl2aspV.Asp.AggProofs Cnl2aspV.Cnl.Comparison Cnl2aspV.Cnl.ComparisonProofs
+               Cnl2aspV.Cnl.Aggregate Cnl2aspV.Cnl.Preference.
 Import ListNotations.
 Open Scope Z_scope.
 
+(* ------------------------------------------------------------------ tables *)
 Lemma levels_ordered :
   (exists l m h, prio_level PLow = Some l /\ prio_level PMedium = Some m /\ prio_level PHigh = Some h /\ l < m < h) /\
   (forall n, prio_level (PNum n) = Some n).
@@ -16,3 +21,483 @@ Lemma direction_signs : dir_neg DMinimized = Some false /\ dir_neg DAsLittle = S
 Proof. vm_compute. repeat split. Qed.
 Lemma as_much_refuted : dir_neg DAsMuch = Some false.
 Proof. vm_compute. reflexivity. Qed.
+
+Lemma prio_level_rank p : prio_level p = Some (rank p).
+Proof. destruct p; vm_compute; reflexivity. Qed.
+
+(* the direction table agrees with what the phrase asks for, except 'as much as possible' *)
+Lemma dir_neg_wants d : d <> DAsMuch -> dir_neg d = Some (wants_max d).
+Proof. destruct d; intros H; try (vm_compute; reflexivity). now contradiction H. Qed.
+
+(* the symbol a comparison phrase compiles to means what the phrase names *)
+Definition phrase_kind_ok (ph : string) : bool :=
+  match phrase_op ph with
+  | Some o => match kind_of_op o, Aggregate.named_kind ph with Some k, Some k' => ckind_eqb k k' | _, _ => false end
+  | None => false end.
+Lemma phrase_kind_table : forallb phrase_kind_ok comparison_phrases = true.
+Proof. vm_compute. reflexivity. Qed.
+Lemma sassoc_in_keys {V} k (l : list (string * V)) v : sassoc k l = Some v -> In k (map fst l).
+Proof.
+  unfold sassoc. induction l as [|[k' v'] r IH]; cbn; [discriminate|].
+  destruct (String.eqb k k') eqn:E; intros H.
+  - apply String.eqb_eq in E. now left.
+  - right. now apply IH.
+Qed.
+Lemma phrase_op_kind ph o : phrase_op ph = Some o -> exists k, kind_of_op o = Some k /\ Aggregate.named_kind ph = Some k.
+Proof.
+  intros H. assert (Hin : In ph comparison_phrases).
+  { unfold phrase_op in H. destruct (sassoc ph term_COMPARISON_OPERATOR) eqn:E; [|discriminate]. now apply sassoc_in_keys in E. }
+  pose proof (forallb_In _ _ phrase_kind_table ph Hin) as T. unfold phrase_kind_ok in T. rewrite H in T.
+  destruct (kind_of_op o) as [k|]; [|discriminate]. destruct (Aggregate.named_kind ph) as [k'|]; [|discriminate].
+  apply ckind_eqb_eq in T. subst. now exists k'.
+Qed.
+
+(* ------------------------------------------------------------------ enumeration of bindings *)
+Lemma all_bindings_in vars U g :
+  In g (all_bindings vars U) <-> exists vals, List.length vals = List.length vars /\ (forall x, In x vals -> In x U) /\ g = combine vars vals.
+Proof.
+  revert g. induction vars as [|v r IH]; intros g; cbn [all_bindings].
+  - split.
+    + intros [<-|[]]. exists []. repeat split. intros x [].
+    + intros (vals & L & _ & ->). destruct vals; [now left|discriminate].
+  - rewrite in_flat_map. split.
+    + intros (x & Hx & Hg). apply in_map_iff in Hg as (g' & <- & Hg'). apply IH in Hg' as (vals & L & HU & ->).
+      exists (x :: vals). repeat split.
+      * cbn. now rewrite L.
+      * intros y [<-|Hy]; auto.
+    + intros (vals & L & HU & ->). destruct vals as [|x vals]; [discriminate|]. cbn in L.
+      exists x. split; [apply HU; now left|]. cbn [combine]. apply in_map. apply IH. exists vals. repeat split; [lia|].
+      intros y Hy. apply HU. now right.
+Qed.
+
+Lemma holds_host_In I x y : holds_host I x y = true <-> In (x, y) I.
+Proof.
+  unfold holds_host. rewrite existsb_exists. split.
+  - intros ([a b] & Hin & H). cbn in H. apply andb_true_iff in H as [H1 H2]. apply Z.eqb_eq in H1, H2. now subst.
+  - intros H. exists (x, y). split; [exact H|]. cbn. now rewrite !Z.eqb_refl.
+Qed.
+Lemma existsb_eqb_In z l : existsb (Z.eqb z) l = true <-> In z l.
+Proof.
+  rewrite existsb_exists. split.
+  - intros (y & Hy & E). apply Z.eqb_eq in E. now subst.
+  - intros H. exists z. split; [exact H|apply Z.eqb_refl].
+Qed.
+Lemma is_shelf_In sp s w : is_shelf sp s w = true <-> In (s, w) (a_shelves sp).
+Proof.
+  unfold is_shelf. rewrite existsb_exists. split.
+  - intros ([a b] & Hin & H). cbn in H. apply andb_true_iff in H as [H1 H2]. apply Z.eqb_eq in H1, H2. now subst.
+  - intros H. exists (s, w). split; [exact H|]. cbn. now rewrite !Z.eqb_refl.
+Qed.
+
+(* admissible interpretations: only rooms host, only shelves are hosted *)
+Definition adm (sp : pspec) (I : interp) : Prop :=
+  forall r s, In (r, s) I -> In r (rooms (world sp)) /\ In s (shelf_ids (world sp)).
+Lemma hard_adm sp I : hard sp I = true -> adm sp I.
+Proof.
+  unfold hard. intros H. apply andb_true_iff in H as [H _]. intros r s Hin.
+  pose proof (forallb_In _ _ H (r, s) Hin) as E. cbn in E. apply andb_true_iff in E as [E1 E2].
+  split.
+  - apply existsb_exists in E1 as (y & Hy & E). apply Z.eqb_eq in E. now subst.
+  - apply existsb_exists in E2 as (y & Hy & E). apply Z.eqb_eq in E. now subst.
+Qed.
+
+Lemma triples_In sp I r s w :
+  In (r, (s, w)) (triples sp I) <-> In r (rooms sp) /\ In (s, w) (a_shelves sp) /\ In (r, s) I.
+Proof.
+  unfold triples. rewrite filter_In, in_prod_iff. cbn [fst snd]. rewrite holds_host_In. tauto.
+Qed.
+
+Lemma in_universe_room sp r : In r (rooms sp) -> In r (universe sp).
+Proof. intros H. unfold universe. apply in_or_app. now left. Qed.
+Lemma in_universe_shelf sp s : In s (shelf_ids sp) -> In s (universe sp).
+Proof. intros H. unfold universe. apply in_or_app. right. apply in_or_app. now left. Qed.
+Lemma in_universe_weight sp s w : In (s, w) (a_shelves sp) -> In w (universe sp).
+Proof. intros H. unfold universe. apply in_or_app. right. apply in_or_app. right. apply in_map_iff. now exists (s, w). Qed.
+Lemma shelf_id_of sp s w : In (s, w) (a_shelves sp) -> In s (shelf_ids sp).
+Proof. intros H. unfold shelf_ids. apply in_map_iff. now exists (s, w). Qed.
+
+(* ------------------------------------------------------------------ sums over sets of tuples *)
+Lemma sum_map_hd (l : list tuple) : fold_right Z.add 0 (map (hd 0) l) = fold_right (fun t acc => weight_of t + acc) 0 l.
+Proof. induction l as [|x r IH]; cbn; [reflexivity|]. now rewrite IH. Qed.
+
+Lemma level_cost_agg sp I ws lvl :
+  EFin (level_cost sp I ws lvl) = agg_value ASum (flat_map (wc_elements sp I) (filter (fun w => Z.eqb (w_level w) lvl) ws)).
+Proof. unfold level_cost, agg_value. cbn [agg_fold]. now rewrite sum_map_hd. Qed.
+
+(* the cost of a set of elements that is, as a set, the image of a duplicate-free list under an injective tuple function *)
+Lemma cost_of_image {A} (els : list tuple) (src : list A) (f : A -> tuple) :
+  NoDup src -> (forall a b, In a src -> In b src -> f a = f b -> a = b) ->
+  (forall t, In t els <-> exists a, In a src /\ t = f a) ->
+  agg_value ASum els = EFin (fold_right Z.add 0 (map (fun a => weight_of (f a)) src)).
+Proof.
+  intros ND Inj Set_.
+  rewrite (agg_value_set ASum els (map f src)).
+  - rewrite agg_sum_nodup.
+    + f_equal. clear. induction src as [|a r IH]; cbn; [reflexivity|]. now rewrite IH.
+    + clear Set_. induction src as [|a r IH]; cbn; [constructor|]. inversion ND as [|? ? Hn ND']; subst. constructor.
+      * intros Hin. apply in_map_iff in Hin as (b & E & Hb). apply Hn.
+        assert (b = a) by (apply Inj; [now right|now left|exact E]). now subst.
+      * apply IH; [exact ND'|]. intros x y Hx Hy. apply Inj; now right.
+  - intros t. rewrite Set_, in_map_iff. split; intros (a & H1 & H2); exists a; auto.
+Qed.
+
+(* ------------------------------------------------------------------ elements of the simple forms *)
+Definition sgn (ng : bool) (z : Z) : Z := if ng then - z else z.
+
+Section Elements.
+  Variable sp : pspec.
+  Variable I : interp.
+  Hypothesis Hadm : adm sp I.
+  Let W := world sp.
+
+  (* body host(R,S) [with a comparison on R or S]; weight 1, R or S *)
+  Lemma elems_rs (pre : list wlit) (ng : bool) (wt : wweight) (lvl : Z) (cond : Z -> Z -> bool) (wf : Z -> Z -> Z) :
+    (forall x y e, wbody_true sp I [("R"%string, x); ("S"%string, y)] e (pre ++ [WHost "R" "S"]) =
+                   if cond x y && holds_host I x y then Some e else None) ->
+    (forall acc, fold_left (fun acc l => wl_vars l acc) pre acc = acc) ->
+    (forall x y, match wt with WOne => Some 1 | WVarW v => sassoc v [("R"%string, x); ("S"%string, y)] end = Some (wf x y)) ->
+    forall t, In t (wc_elements sp I {| w_body := pre ++ [WHost "R" "S"]; w_neg := ng; w_weight := wt; w_level := lvl; w_tuple := ["R"%string; "S"%string] |})
+              <-> exists tr, In tr (filter (fun tr => cond (colval KRoom tr) (colval KShelf tr)) (triples W I)) /\
+                             t = [sgn ng (wf (colval KRoom tr) (colval KShelf tr)); colval KRoom tr; colval KShelf tr].
+  Proof.
+    intros Hbody Hpre Hwt t. unfold wc_elements. cbn [w_body w_neg w_weight w_level w_tuple].
+    assert (G : wc_globals {| w_body := pre ++ [WHost "R" "S"]; w_neg := ng; w_weight := wt; w_level := lvl; w_tuple := ["R"%string; "S"%string] |}
+                = ["R"%string; "S"%string]).
+    { unfold wc_globals. cbn [w_body]. rewrite fold_left_app, Hpre. reflexivity. }
+    rewrite G, in_flat_map. split.
+    - intros (g & Hg & Ht). apply all_bindings_in in Hg as (vals & L & HU & ->).
+      destruct vals as [|x [|y [|z r]]]; try discriminate. cbn [combine] in Ht. rewrite Hbody in Ht.
+      destruct (cond x y && holds_host I x y) eqn:E; [|destruct Ht].
+      apply andb_true_iff in E as [Ec Eh]. apply holds_host_In in Eh. destruct (Hadm x y Eh) as [Hr Hs].
+      apply in_map_iff in Hs as ([s w] & Es & Hsw). cbn in Es. subst s.
+      assert (Hw : match wt with WOne => Some 1 | WVarW v => match sassoc v (@nil (string * ext)) with Some (EFin z) => Some z | Some _ => None
+                                                              | None => sassoc v [("R"%string, x); ("S"%string, y)] end end = Some (wf x y)).
+      { specialize (Hwt x y). destruct wt; [exact Hwt|]. cbn [sassoc assoc]. exact Hwt. }
+      rewrite Hw in Ht. cbn in Ht. destruct Ht as [<-|[]].
+      exists (x, (y, w)). split.
+      + apply filter_In. split; [|exact Ec]. apply triples_In. repeat split; auto.
+      + reflexivity.
+    - intros ([r [s w]] & Hin & ->). apply filter_In in Hin as [Hin Ec]. cbn [colval fst snd] in *.
+      apply triples_In in Hin as (Hr & Hs & Hh).
+      exists [("R"%string, r); ("S"%string, s)]. split.
+      + apply all_bindings_in. exists [r; s]. repeat split.
+        intros z [<-|[<-|[]]]; [now apply in_universe_room|apply in_universe_shelf; now apply shelf_id_of with w].
+      + rewrite Hbody. apply holds_host_In in Hh. rewrite Ec, Hh. cbn [andb].
+        assert (Hw : match wt with WOne => Some 1 | WVarW v => match sassoc v (@nil (string * ext)) with Some (EFin z) => Some z | Some _ => None
+                                                                | None => sassoc v [("R"%string, r); ("S"%string, s)] end end = Some (wf r s)).
+        { specialize (Hwt r s). destruct wt; [exact Hwt|]. cbn [sassoc assoc]. exact Hwt. }
+        rewrite Hw. cbn. now left.
+  Qed.
+End Elements.
+
+Section Elements3.
+  Variable sp : pspec.
+  Variable I : interp.
+  Hypothesis Hadm : adm sp I.
+  Let W := world sp.
+  Let g3 (x y z : Z) : binding := [("R"%string, x); ("S"%string, y); ("W"%string, z)].
+
+  Lemma elems_rsw (pre : list wlit) (ng : bool) (wt : wweight) (lvl : Z) (cond : Z -> Z -> Z -> bool) (wf : Z -> Z -> Z -> Z) :
+    (forall x y z e, wbody_true sp I (g3 x y z) e (pre ++ [WHost "R" "S"; WShelf "S" "W"]) =
+                     if cond x y z && holds_host I x y && is_shelf W y z then Some e else None) ->
+    (forall acc, fold_left (fun acc l => wl_vars l acc) pre acc = acc) ->
+    (forall x y z, match wt with WOne => Some 1 | WVarW v => sassoc v (g3 x y z) end = Some (wf x y z)) ->
+    forall t, In t (wc_elements sp I {| w_body := pre ++ [WHost "R" "S"; WShelf "S" "W"]; w_neg := ng; w_weight := wt; w_level := lvl;
+                                        w_tuple := ["R"%string; "S"%string; "W"%string] |})
+              <-> exists tr, In tr (filter (fun tr => cond (colval KRoom tr) (colval KShelf tr) (colval KWeight tr)) (triples W I)) /\
+                             t = [sgn ng (wf (colval KRoom tr) (colval KShelf tr) (colval KWeight tr)); colval KRoom tr; colval KShelf tr; colval KWeight tr].
+  Proof.
+    intros Hbody Hpre Hwt t. unfold wc_elements. cbn [w_body w_neg w_weight w_level w_tuple].
+    assert (G : wc_globals {| w_body := pre ++ [WHost "R" "S"; WShelf "S" "W"]; w_neg := ng; w_weight := wt; w_level := lvl;
+                              w_tuple := ["R"%string; "S"%string; "W"%string] |} = ["R"%string; "S"%string; "W"%string]).
+    { unfold wc_globals. cbn [w_body]. rewrite fold_left_app, Hpre. reflexivity. }
+    rewrite G, in_flat_map. split.
+    - intros (g & Hg & Ht). apply all_bindings_in in Hg as (vals & L & HU & ->).
+      destruct vals as [|x [|y [|z [|u r]]]]; try discriminate. cbn [combine] in Ht. change (wbody_true sp I (g3 x y z) [] (pre ++ [WHost "R" "S"; WShelf "S" "W"])) with
+        (wbody_true sp I (g3 x y z) [] (pre ++ [WHost "R" "S"; WShelf "S" "W"])) in Ht.
+      fold (g3 x y z) in Ht. rewrite Hbody in Ht.
+      destruct (cond x y z && holds_host I x y && is_shelf W y z) eqn:E; [|destruct Ht].
+      apply andb_true_iff in E as [E Es]. apply andb_true_iff in E as [Ec Eh].
+      apply holds_host_In in Eh. destruct (Hadm x y Eh) as [Hr _]. apply is_shelf_In in Es.
+      assert (Hw : match wt with WOne => Some 1 | WVarW v => match sassoc v (@nil (string * ext)) with Some (EFin z0) => Some z0 | Some _ => None
+                                                              | None => sassoc v (g3 x y z) end end = Some (wf x y z)).
+      { specialize (Hwt x y z). destruct wt; [exact Hwt|]. cbn [sassoc assoc]. exact Hwt. }
+      rewrite Hw in Ht. cbn in Ht. destruct Ht as [<-|[]].
+      exists (x, (y, z)). split.
+      + apply filter_In. split; [|exact Ec]. apply triples_In. repeat split; auto.
+      + reflexivity.
+    - intros ([r [s w]] & Hin & ->). apply filter_In in Hin as [Hin Ec]. cbn [colval fst snd] in *.
+      apply triples_In in Hin as (Hr & Hs & Hh).
+      exists (g3 r s w). split.
+      + apply all_bindings_in. exists [r; s; w]. repeat split.
+        intros z [<-|[<-|[<-|[]]]]; [now apply in_universe_room|apply in_universe_shelf; now apply shelf_id_of with w|now apply in_universe_weight with s].
+      + rewrite Hbody. apply holds_host_In in Hh. apply is_shelf_In in Hs. fold W in Hs. rewrite Ec, Hh, Hs. cbn [andb].
+        assert (Hw : match wt with WOne => Some 1 | WVarW v => match sassoc v (@nil (string * ext)) with Some (EFin z0) => Some z0 | Some _ => None
+                                                                | None => sassoc v (g3 r s w) end end = Some (wf r s w)).
+        { specialize (Hwt r s w). destruct wt; [exact Hwt|]. cbn [sassoc assoc]. exact Hwt. }
+        rewrite Hw. cbn. now left.
+  Qed.
+End Elements3.
+
+(* ------------------------------------------------------------------ duplicate-freeness of the qualifying instances *)
+Lemma NoDup_app' {A} (l1 l2 : list A) : NoDup l1 -> NoDup l2 -> (forall x, In x l1 -> ~ In x l2) -> NoDup (l1 ++ l2).
+Proof.
+  induction l1 as [|a r IH]; cbn; intros H1 H2 D; [exact H2|]. inversion H1 as [|? ? Hn H1']; subst. constructor.
+  - intros Hin. apply in_app_or in Hin as [Hin|Hin]; [now apply Hn|]. apply (D a); [now left|exact Hin].
+  - apply IH; [exact H1'|exact H2|]. intros x Hx. apply D. now right.
+Qed.
+Lemma NoDup_prod {A B} (l1 : list A) (l2 : list B) : NoDup l1 -> NoDup l2 -> NoDup (list_prod l1 l2).
+Proof.
+  induction l1 as [|a r IH]; cbn; intros H1 H2; [constructor|]. inversion H1 as [|? ? Hn H1']; subst. apply NoDup_app'.
+  - clear - H2. induction l2 as [|b s IH]; cbn; [constructor|]. inversion H2 as [|? ? Hn H2']; subst. constructor; [|now apply IH].
+    intros Hin. apply in_map_iff in Hin as (b' & E & Hb). injection E as ->. now apply Hn.
+  - now apply IH.
+  - intros [x y] Hin Hin2. apply in_map_iff in Hin as (b' & E & Hb). injection E as <- <-. apply in_prod_iff in Hin2 as [Hx _]. now apply Hn.
+Qed.
+Lemma NoDup_filter' {A} (f : A -> bool) l : NoDup l -> NoDup (filter f l).
+Proof.
+  induction l as [|a r IH]; cbn; intros H; [constructor|]. inversion H as [|? ? Hn H']; subst. destruct (f a); [|now apply IH].
+  constructor; [|now apply IH]. intros Hin. apply filter_In in Hin as [Hin _]. now apply Hn.
+Qed.
+Lemma NoDup_rooms sp : NoDup (rooms sp).
+Proof.
+  unfold rooms. generalize (seq_NoDup (a_rooms sp) 1). generalize (seq 1 (a_rooms sp)). intros l H.
+  induction l as [|a r IH]; cbn; [constructor|]. inversion H as [|? ? Hn H']; subst. constructor; [|now apply IH].
+  intros Hin. apply in_map_iff in Hin as (b & E & Hb). apply Nat2Z.inj in E. now subst.
+Qed.
+Lemma NoDup_of_fst {A B} (l : list (A * B)) : NoDup (map fst l) -> NoDup l.
+Proof.
+  induction l as [|a r IH]; cbn; intros H; [constructor|]. inversion H as [|? ? Hn H']; subst. constructor; [|now apply IH].
+  intros Hin. apply Hn. apply in_map_iff. now exists a.
+Qed.
+Lemma fst_determines {A B} (l : list (A * B)) a b b' : NoDup (map fst l) -> In (a, b) l -> In (a, b') l -> b = b'.
+Proof.
+  induction l as [|[x y] r IH]; cbn; intros H H1 H2; [destruct H1|]. inversion H as [|? ? Hn H']; subst.
+  destruct H1 as [E1|H1], H2 as [E2|H2].
+  - congruence.
+  - injection E1 as -> ->. exfalso. apply Hn. apply in_map_iff. now exists (a, b').
+  - injection E2 as -> ->. exfalso. apply Hn. apply in_map_iff. now exists (a, b).
+  - now apply IH.
+Qed.
+Lemma NoDup_triples sp I : NoDup (shelf_ids sp) -> NoDup (triples sp I).
+Proof. intros H. unfold triples. apply NoDup_filter'. apply NoDup_prod; [apply NoDup_rooms|now apply NoDup_of_fst]. Qed.
+
+Lemma sum_sgn {A} ng (h : A -> Z) l : fold_right Z.add 0 (map (fun a => sgn ng (h a)) l) = sgn ng (fold_right Z.add 0 (map h l)).
+Proof. induction l as [|a r IH]; cbn [map fold_right]; [now destruct ng|]. rewrite IH. unfold sgn. destruct ng; lia. Qed.
+Lemma sum_ones {A} (l : list A) : fold_right Z.add 0 (map (fun _ => 1) l) = Z.of_nat (List.length l).
+Proof. induction l as [|a r IH]; cbn [map fold_right List.length]; [reflexivity|]. rewrite IH. lia. Qed.
+Lemma filter_true {A} (l : list A) : filter (fun _ => true) l = l.
+Proof. induction l as [|a r IH]; cbn; [reflexivity|]. now rewrite IH. Qed.
+
+(* ------------------------------------------------------------------ cost = directed quantity, for the forms without aggregates *)
+Definition simple_form (f : pform) : bool := match f with PVar _ | PClause | PCmp _ _ _ => true | _ => false end.
+
+Section Cost.
+  Variable sp : pspec.
+  Variable I : interp.
+  Hypothesis Hadm : adm sp I.
+  Hypothesis Hids : NoDup (shelf_ids (world sp)).
+  Let W := world sp.
+
+  Lemma cost_rs w (cond : Z -> Z -> bool) (wf : Z -> Z -> Z) ng :
+    (forall t, In t (wc_elements sp I w) <-> exists tr, In tr (filter (fun tr => cond (colval KRoom tr) (colval KShelf tr)) (triples W I)) /\
+               t = [sgn ng (wf (colval KRoom tr) (colval KShelf tr)); colval KRoom tr; colval KShelf tr]) ->
+    agg_value ASum (wc_elements sp I w) =
+    EFin (sgn ng (fold_right Z.add 0 (map (fun tr => wf (colval KRoom tr) (colval KShelf tr)) (filter (fun tr => cond (colval KRoom tr) (colval KShelf tr)) (triples W I))))).
+  Proof.
+    intros H.
+    rewrite (cost_of_image (wc_elements sp I w) (filter (fun tr => cond (colval KRoom tr) (colval KShelf tr)) (triples W I))
+               (fun tr => [sgn ng (wf (colval KRoom tr) (colval KShelf tr)); colval KRoom tr; colval KShelf tr])).
+    - cbn [weight_of hd]. now rewrite (sum_sgn ng (fun tr => wf (colval KRoom tr) (colval KShelf tr))).
+    - apply NoDup_filter'. now apply NoDup_triples.
+    - intros [r [s w1]] [r' [s' w2]] Ha Hb E. cbn [colval fst snd] in E. injection E as _ -> ->.
+      apply filter_In in Ha as [Ha _]. apply filter_In in Hb as [Hb _]. apply triples_In in Ha as (_ & Ha & _). apply triples_In in Hb as (_ & Hb & _).
+      now rewrite (fst_determines _ _ _ _ Hids Ha Hb).
+    - exact H.
+  Qed.
+
+  Lemma cost_rsw w (cond : Z -> Z -> Z -> bool) (wf : Z -> Z -> Z -> Z) ng :
+    (forall t, In t (wc_elements sp I w) <-> exists tr, In tr (filter (fun tr => cond (colval KRoom tr) (colval KShelf tr) (colval KWeight tr)) (triples W I)) /\
+               t = [sgn ng (wf (colval KRoom tr) (colval KShelf tr) (colval KWeight tr)); colval KRoom tr; colval KShelf tr; colval KWeight tr]) ->
+    agg_value ASum (wc_elements sp I w) =
+    EFin (sgn ng (fold_right Z.add 0 (map (fun tr => wf (colval KRoom tr) (colval KShelf tr) (colval KWeight tr))
+                                          (filter (fun tr => cond (colval KRoom tr) (colval KShelf tr) (colval KWeight tr)) (triples W I))))).
+  Proof.
+    intros H.
+    rewrite (cost_of_image (wc_elements sp I w) (filter (fun tr => cond (colval KRoom tr) (colval KShelf tr) (colval KWeight tr)) (triples W I))
+               (fun tr => [sgn ng (wf (colval KRoom tr) (colval KShelf tr) (colval KWeight tr)); colval KRoom tr; colval KShelf tr; colval KWeight tr])).
+    - cbn [weight_of hd]. now rewrite (sum_sgn ng (fun tr => wf (colval KRoom tr) (colval KShelf tr) (colval KWeight tr))).
+    - apply NoDup_filter'. now apply NoDup_triples.
+    - intros [r [s w1]] [r' [s' w2]] Ha Hb E. cbn [colval fst snd] in E. now injection E as _ -> -> ->.
+    - exact H.
+  Qed.
+End Cost.
+
+Local Arguments op_symbol : simpl never.
+Local Arguments kind_of_symbol : simpl never.
+Lemma directed_sgn sp I p : directed sp I p = sgn (wants_max (pf_dir p)) (quantity sp I p).
+Proof. reflexivity. Qed.
+
+Lemma simple_cost sp I p w :
+  adm sp I -> NoDup (shelf_ids (world sp)) -> simple_form (pf_form p) = true -> pf_dir p <> DAsMuch ->
+  compile_pref p = Some w ->
+  w_level w = rank (pf_prio p) /\ agg_value ASum (wc_elements sp I w) = EFin (directed sp I p).
+Proof.
+  intros Hadm Hids Hs Hd Hc. unfold compile_pref in Hc. rewrite prio_level_rank, (dir_neg_wants _ Hd) in Hc.
+  rewrite directed_sgn. unfold quantity.
+  destruct (pf_form p) as [f c|f|c| |c ph k]; try discriminate Hs.
+  - (* PVar *)
+    destruct c; injection Hc as <-; (split; [reflexivity|]).
+    + rewrite (cost_rs sp I Hids _ (fun _ _ => true) (fun x _ => x) (wants_max (pf_dir p))).
+      * cbn beta. now rewrite filter_true.
+      * apply (elems_rs sp I Hadm [] (wants_max (pf_dir p)) (WVarW "R") (rank (pf_prio p)) (fun _ _ => true) (fun x _ => x)).
+        -- intros x y e. cbn. now destruct (holds_host I x y).
+        -- reflexivity.
+        -- reflexivity.
+    + rewrite (cost_rs sp I Hids _ (fun _ _ => true) (fun _ y => y) (wants_max (pf_dir p))).
+      * cbn beta. now rewrite filter_true.
+      * apply (elems_rs sp I Hadm [] (wants_max (pf_dir p)) (WVarW "S") (rank (pf_prio p)) (fun _ _ => true) (fun _ y => y)).
+        -- intros x y e. cbn. now destruct (holds_host I x y).
+        -- reflexivity.
+        -- reflexivity.
+    + rewrite (cost_rsw sp I Hids _ (fun _ _ _ => true) (fun _ _ z => z) (wants_max (pf_dir p))).
+      * cbn beta. now rewrite filter_true.
+      * apply (elems_rsw sp I Hadm [] (wants_max (pf_dir p)) (WVarW "W") (rank (pf_prio p)) (fun _ _ _ => true) (fun _ _ z => z)).
+        -- intros x y z e. cbn. destruct (holds_host I x y); [|reflexivity]. now destruct (is_shelf (world sp) y z).
+        -- reflexivity.
+        -- reflexivity.
+  - (* PClause *)
+    injection Hc as <-. split; [reflexivity|].
+    rewrite (cost_rs sp I Hids _ (fun _ _ => true) (fun _ _ => 1) (wants_max (pf_dir p))).
+    + cbn beta. now rewrite filter_true, sum_ones.
+    + apply (elems_rs sp I Hadm [] (wants_max (pf_dir p)) WOne (rank (pf_prio p)) (fun _ _ => true) (fun _ _ => 1)).
+      * intros x y e. cbn. now destruct (holds_host I x y).
+      * reflexivity.
+      * reflexivity.
+  - (* PCmp *)
+    destruct (phrase_op ph) as [o|] eqn:Eo; [|destruct c; discriminate].
+    destruct (phrase_op_kind ph o Eo) as (kd & Hk & Hn). rewrite Hn.
+    unfold kind_of_op in Hk. destruct (op_symbol o) as [sym|] eqn:Es; [|discriminate].
+    destruct c; injection Hc as <-; (split; [reflexivity|]).
+    + rewrite (cost_rs sp I Hids _ (fun x _ => ksem kd x k) (fun _ _ => 1) (wants_max (pf_dir p))).
+      * cbn beta. now rewrite sum_ones.
+      * apply (elems_rs sp I Hadm [WCmp "R" o k] (wants_max (pf_dir p)) WOne (rank (pf_prio p)) (fun x _ => ksem kd x k) (fun _ _ => 1)).
+        -- intros x y e. cbn. rewrite Es, Hk. destruct (ksem kd x k); [|reflexivity]. now destruct (holds_host I x y).
+        -- reflexivity.
+        -- reflexivity.
+    + rewrite (cost_rs sp I Hids _ (fun _ y => ksem kd y k) (fun _ _ => 1) (wants_max (pf_dir p))).
+      * cbn beta. now rewrite sum_ones.
+      * apply (elems_rs sp I Hadm [WCmp "S" o k] (wants_max (pf_dir p)) WOne (rank (pf_prio p)) (fun _ y => ksem kd y k) (fun _ _ => 1)).
+        -- intros x y e. cbn. rewrite Es, Hk. destruct (ksem kd y k); [|reflexivity]. now destruct (holds_host I x y).
+        -- reflexivity.
+        -- reflexivity.
+    + rewrite (cost_rsw sp I Hids _ (fun _ _ z => ksem kd z k) (fun _ _ _ => 1) (wants_max (pf_dir p))).
+      * cbn beta. now rewrite sum_ones.
+      * apply (elems_rsw sp I Hadm [WCmp "W" o k] (wants_max (pf_dir p)) WOne (rank (pf_prio p)) (fun _ _ z => ksem kd z k) (fun _ _ _ => 1)).
+        -- intros x y z e. cbn. rewrite Es, Hk. destruct (ksem kd z k); [|reflexivity]. destruct (holds_host I x y); [|reflexivity]. now destruct (is_shelf (world sp) y z).
+        -- reflexivity.
+        -- reflexivity.
+Qed.
+
+(* ------------------------------------------------------------------ levels are compared in the order of the priorities *)
+Definition rankp (p : pref) : Z := rank (pf_prio p).
+
+Lemma all_some_Forall2 {A B} (f : A -> option B) l ws : all_some (map f l) = Some ws -> Forall2 (fun a w => f a = Some w) l ws.
+Proof.
+  revert ws. induction l as [|a r IH]; cbn; intros ws H.
+  - injection H as <-. constructor.
+  - destruct (f a) as [b|] eqn:E; [|discriminate]. destruct (all_some (map f r)) as [bs|] eqn:E2; [|discriminate].
+    injection H as <-. constructor; [exact E|]. now apply IH.
+Qed.
+
+Lemma filter_level_unique (ws : list wc) w :
+  NoDup (map w_level ws) -> In w ws -> filter (fun w' => Z.eqb (w_level w') (w_level w)) ws = [w].
+Proof.
+  induction ws as [|a r IH]; cbn; intros ND Hin; [destruct Hin|]. inversion ND as [|? ? Hn ND']; subst.
+  destruct Hin as [->|Hin].
+  - rewrite Z.eqb_refl. f_equal.
+    clear IH ND ND'. induction r as [|b s IHs]; cbn; [reflexivity|].
+    destruct (Z.eqb_spec (w_level b) (w_level w)) as [E|E].
+    + exfalso. apply Hn. cbn. now left.
+    + apply IHs. intros H. apply Hn. cbn. now right.
+  - destruct (Z.eqb_spec (w_level a) (w_level w)) as [E|E].
+    + exfalso. apply Hn. rewrite E. apply in_map_iff. now exists w.
+    + now apply IH.
+Qed.
+
+Lemma insert_desc_In p l x : In x (insert_desc p l) <-> x = p \/ In x l.
+Proof.
+  induction l as [|q r IH]; cbn; [intuition|].
+  destruct (Z.leb (rank (pf_prio q)) (rank (pf_prio p))); cbn; [intuition|]. rewrite IH. intuition.
+Qed.
+Lemma by_priority_In l x : In x (by_priority l) <-> In x l.
+Proof.
+  unfold by_priority. induction l as [|p r IH]; cbn; [tauto|]. rewrite insert_desc_In, IH. intuition.
+Qed.
+Lemma insert_desc_levels p l :
+  ~ In (rankp p) (map rankp l) -> map rankp (insert_desc p l) = insert_z_desc (rankp p) (map rankp l).
+Proof.
+  induction l as [|q r IH]; cbn; intros Hn; [reflexivity|]. fold (rankp q). fold (rankp p).
+  destruct (Z.eqb_spec (rankp q) (rankp p)) as [E|E]; [exfalso; apply Hn; now left|].
+  destruct (Z.leb_spec (rankp q) (rankp p)) as [L|L], (Z.ltb_spec (rankp q) (rankp p)) as [L'|L']; try lia.
+  - reflexivity.
+  - cbn. f_equal. apply IH. intros H. apply Hn. now right.
+Qed.
+Lemma by_priority_levels l :
+  NoDup (map rankp l) -> map rankp (by_priority l) = fold_right insert_z_desc [] (map rankp l).
+Proof.
+  unfold by_priority. induction l as [|p r IH]; cbn; intros ND; [reflexivity|]. inversion ND as [|? ? Hn ND']; subst.
+  rewrite insert_desc_levels.
+  - now rewrite IH.
+  - intros H. apply Hn. apply in_map_iff in H as (x & E & Hx). apply in_map_iff. exists x. split; [exact E|].
+    apply (proj1 (by_priority_In r x)). exact Hx.
+Qed.
+
+Lemma better_agree sp ws J I (ps : list pref) :
+  (forall p, In p ps -> level_cost sp J ws (rankp p) = directed sp J p /\ level_cost sp I ws (rankp p) = directed sp I p) ->
+  cost_better sp ws J I (map rankp ps) = lex_better sp J I ps.
+Proof.
+  induction ps as [|p r IH]; cbn [map cost_better lex_better]; intros H; [reflexivity|].
+  destruct (H p (or_introl eq_refl)) as [-> ->]. rewrite IH; [reflexivity|]. intros q Hq. apply H. now right.
+Qed.
+
+Lemma forallb_ext_in' {A} (f g : A -> bool) l : (forall x, In x l -> f x = g x) -> forallb f l = forallb g l.
+Proof. induction l as [|a r IH]; cbn; intros H; [reflexivity|]. rewrite H by now left. f_equal. apply IH. intros x Hx. apply H. now right. Qed.
+
+(* ------------------------------------------------------------------ the theorem *)
+Definition wf_pspec (sp : pspec) : Prop :=
+  NoDup (shelf_ids (world sp)) /\ NoDup (map rankp (p_prefs sp)) /\
+  (forall p, In p (p_prefs sp) -> simple_form (pf_form p) = true /\ pf_dir p <> DAsMuch).
+
+Theorem wc_optimal_is_reading_optimal sp ws space I :
+  wf_pspec sp -> compile_prefs sp = Some ws -> wc_optimal_in sp ws space I = optimal_in sp space I.
+Proof.
+  intros (Hids & Hranks & Hsimple) Hc. unfold wc_optimal_in, optimal_in.
+  destruct (hard sp I) eqn:HI; [|reflexivity]. cbn [andb].
+  apply all_some_Forall2 in Hc.
+  (* levels of the weak constraints = ranks of the preferences, in the same order *)
+  assert (Hlv : map w_level ws = map rankp (p_prefs sp)).
+  { clear - Hc Hsimple. revert Hsimple. induction Hc as [|p w ps ws' Hpw Hrest IH]; intros Hs; [reflexivity|]. cbn. f_equal.
+    - unfold compile_pref in Hpw. rewrite prio_level_rank in Hpw. destruct (dir_neg (pf_dir p)); [|discriminate].
+      destruct (pf_form p) as [f c|f|c| |c ph k]; try (destruct (fn_op f); [|discriminate]); try (destruct (phrase_op ph); [|discriminate]);
+        injection Hpw as <-; reflexivity.
+    - apply IH. intros q Hq. apply Hs. now right. }
+  (* cost at the level of a preference = its directed quantity, on admissible interpretations *)
+  assert (Hcost : forall K, hard sp K = true -> forall p, In p (p_prefs sp) -> level_cost sp K ws (rankp p) = directed sp K p).
+  { intros K HK p Hp. pose proof (hard_adm sp K HK) as Hadm.
+    assert (Hw : exists w, In w ws /\ compile_pref p = Some w).
+    { clear - Hc Hp. induction Hc as [|q w ps ws' Hqw Hrest IH]; [destruct Hp|]. destruct Hp as [->|Hp].
+      - exists w. split; [now left|exact Hqw].
+      - destruct (IH Hp) as (w' & Hin & E). exists w'. split; [now right|exact E]. }
+    destruct Hw as (w & Hin & Ew). destruct (Hsimple p Hp) as [Hs Hd].
+    destruct (simple_cost sp K p w Hadm Hids Hs Hd Ew) as [Hl Hq].
+    assert (E : EFin (level_cost sp K ws (rankp p)) = EFin (directed sp K p)).
+    { rewrite level_cost_agg. unfold rankp. rewrite <- Hl. rewrite filter_level_unique; [|now rewrite Hlv|exact Hin].
+      cbn [flat_map]. now rewrite app_nil_r. }
+    now injection E. }
+  assert (Hlevels : levels_desc ws = map rankp (by_priority (p_prefs sp))).
+  { unfold levels_desc. rewrite Hlv. symmetry. now apply by_priority_levels. }
+  rewrite Hlevels. apply forallb_ext_in'. intros J _.
+  destruct (hard sp J) eqn:HJ; [|reflexivity]. cbn [andb]. f_equal.
+  apply better_agree. intros p Hp. apply (proj1 (by_priority_In _ _)) in Hp. split; apply Hcost; assumption.
+Qed.
